@@ -103,7 +103,7 @@ CHECKS = {
             'nine node orders, positive and negative ids.',
             'Trusted: the std::map model. Not judged: clear(), size(), used_memory().',
             'DESIGN.md section 2 C12'),
-    'C14': ('exploration', 'exhaustive enumeration with the real parsers as left inverse (opl_parse_string, expat; writer blocks also through the library's XML reader), structural-character scan, exact-size heap blocks / guard pages for over-reads (ASan/UBSan + -O2 builds)',
+    'C14': ('exploration', 'exhaustive enumeration with the real parsers as left inverse (opl_parse_string, expat; writer blocks also through the XML reader of the library), structural-character scan, exact-size heap blocks / guard pages for over-reads (ASan/UBSan + -O2 builds)',
             'Every Unicode scalar value (alone and in context), every sequence up to length 4 over a structural alphabet, random long strings and writer-level blocks are '
             'escaped by the OPL/XML writers and parsed back; escaped forms are scanned for raw structural characters and checked pairwise distinct; every byte string of '
             'length 0..4 (strided in quick) is escaped from an exact-size block: no read past the NUL and an exception exactly when a well-formed prefix ends in a cut-off sequence.',
